@@ -48,6 +48,17 @@ def spec_cross_check(ck, scn, impl, sb):
                 if all(len(c) == 1 for c in cands):
                     ck.count("cross_samples_hit_unambiguous")
         elif o["op"] == "state" and isinstance(a, dict):
+            # the cross bins of the type covergroup count the joint hits of all instances of the type
+            for ti, t in enumerate(a.get("types", [])):
+                members = [i for i, it in enumerate(a["insts"]) if it.get("tidx") == ti]
+                for xi, cr in enumerate(t["st"]["cross"]):
+                    try:
+                        want = [sum(a["insts"][i]["st"]["cross"][xi]["hits"][b] for i in members) for b in range(len(cr["hits"]))]
+                    except (IndexError, KeyError):
+                        continue
+                    if cr["hits"] != want:
+                        ck.oracle_fail("cross:type-level-count-is-not-the-sum-of-its-instances", {"ops": scn["ops"][:k + 1], "type": ti, "cross": xi},
+                                       cr["hits"], want)
             # layout: n_bins = product, names <a,b> row-major
             for it, sh in zip(a["insts"], insts):
                 for cr, x in zip(it["st"]["cross"], sh["crosses"]):
